@@ -83,7 +83,10 @@ def model(op, prev, events, F):
         cats = set()
         new = {}
         for k, pv in prev.items():
-            if k in per:
+            if k in per and per[k][0] == "access":
+                # the key was looked up but its sub-snapshot was never compared: it is in use, nothing changes
+                new[k] = pv
+            elif k in per:
                 subop, xs = per[k]
                 c, v = model(subop, pv, xs, F)
                 cats |= c
@@ -93,7 +96,7 @@ def model(op, prev, events, F):
                 if "trim" not in F:
                     new[k] = pv
         for k in keys:
-            if k not in prev:
+            if k not in prev and per[k][0] != "access":
                 cats.add("create")
                 if "create" in F:
                     subop, xs = per[k]
@@ -117,6 +120,8 @@ def holds(op, value, events):
         return all(x in value for x in events)
     if op == "getitem":
         for key, subop, x in events:
+            if subop == "access":
+                continue
             if key not in value:
                 return False
             if not holds(subop, value[key], [x]):
